@@ -511,6 +511,53 @@ pub open spec fn bounded<R: Read>(r: R) -> bool { r.wf() && r.consumed() + r.unr
     ensures final(reader).wf(), r is Ok ==> took(*old(reader), *final(reader), r->Ok_0@) && sp_value_len(old(reader).unread()) == Some(r->Ok_0@.len() as int),   // [C20.scan.exact] LazyValue / byte_buf scanning takes exactly one encoded value off the reader, whatever follows it stays
 //@@ end
 
+// ---- forward_read_byte_buf of both readers: the visitor of a LazyValue / byte_buf-style value (message bodies are decoded through it) must be driven the same way
+// by the slice reader (single-frame delivery) and by the io reader (multi-frame delivery)
+pub enum VisCall { Bytes(Seq<u8>), ByteBuf(Seq<u8>) }
+pub struct VisValue { pub via: Ghost<VisCall> }
+/// a serde visitor, reduced to which entry point it was driven through and with which octets
+pub struct VisS { pub p: u8 }
+impl VisS {
+    #[verifier::external_body]
+    pub fn visit_bytes(self, v: &Vec<u8>) -> (r: Result<VisValue, Error>) ensures r is Ok ==> r->Ok_0.via@ == VisCall::Bytes(v@) { unimplemented!() }
+    #[verifier::external_body]
+    pub fn visit_byte_buf(self, v: Vec<u8>) -> (r: Result<VisValue, Error>) ensures r is Ok ==> r->Ok_0.via@ == VisCall::ByteBuf(v@) { unimplemented!() }
+}
+/// the ONE contract of Read::forward_read_byte_buf, checked against both readers
+pub open spec fn byte_buf_forwarded<R: Read>(old_r: R, new_r: R, r: Result<VisValue, Error>) -> bool {
+    r is Ok ==> {
+        &&& r->Ok_0.via@ is ByteBuf                                                         // [C10.reader.byte-buf-same-entry-point] the scanned value is handed to the visitor as an OWNED buffer (visit_byte_buf) by either reader: what a visitor accepts cannot depend on whether the delivery came in one frame (slice reader) or several (io reader)
+        &&& took(old_r, new_r, r->Ok_0.via@->ByteBuf_0)                                     // [C20.scan.exact] exactly one encoded value is taken
+        &&& sp_value_len(old_r.unread()) == Some(r->Ok_0.via@->ByteBuf_0.len() as int)
+    }
+}
+impl<'s> SliceReader<'s> {
+//@@ fn file=serde_amqp/src/read/sliceread.rs impl=`impl<'s> Read<'s> for SliceReader<'s>` name=forward_read_byte_buf id=SliceReader::forward_read_byte_buf
+//@@ qmark
+//@@ generics
+//@@ nowhere
+//@@ param visitor : VisS
+//@@ ret Result<VisValue, Error>
+//@@ subst `read_primitive_bytes_or_else(self, read_described_bytes)` => `read_primitive_bytes_or_else(self, Ghost(0))` rule=R28
+//@@ spec
+    requires bounded(*old(self)),
+    ensures byte_buf_forwarded(*old(self), *final(self), r),
+//@@ end
+}
+impl IoReader {
+//@@ fn file=serde_amqp/src/read/ioread.rs impl=`~Read<'de>forIoReader<R>` name=forward_read_byte_buf id=IoReader::forward_read_byte_buf
+//@@ qmark
+//@@ generics
+//@@ nowhere
+//@@ param visitor : VisS
+//@@ ret Result<VisValue, Error>
+//@@ subst `read_primitive_bytes_or_else(self, read_described_bytes)` => `read_primitive_bytes_or_else(self, Ghost(0))` rule=R28
+//@@ spec
+    requires bounded(*old(self)),
+    ensures byte_buf_forwarded(*old(self), *final(self), r),
+//@@ end
+}
+
 /// `io::Read::take(&mut reader, limit)` is reduced to its limit: the adaptor is consumed by the read_to_end that follows (R9)
 pub fn take_limit(limit: u64) -> (r: u64) ensures r == limit { limit }
 /// Vec::append
